@@ -147,22 +147,25 @@ func (b *CommonBlockchainObserver) IsTxInRange(txId string, startBlock, endBlock
 	return "", 0, ErrNotFound
 }
 
-func (b *CommonBlockchainObserver) IsTxInMempoolOrRange(txId string, startHeight, vout uint32) (string, uint32, error) {
+// IsTxInMempoolOrRange returns the raw transaction, the height of the block it
+// was first seen in and the height of the tip these answers refer to.
+func (b *CommonBlockchainObserver) IsTxInMempoolOrRange(txId string, startHeight, vout uint32) (string, uint32, uint32, error) {
 	ctmp, err := b.blockchain.GetBlockHeight()
 	if err != nil {
-		return "", 0, fmt.Errorf("could not get current block height: %v", err)
+		return "", 0, 0, fmt.Errorf("could not get current block height: %v", err)
 	}
 	current := uint32(ctmp)
+	tip := current
 	bHash, err := b.blockchain.GetBlockHash(current)
 	if err != nil {
-		return "", 0, fmt.Errorf("could not get current block hash: %v", err)
+		return "", 0, 0, fmt.Errorf("could not get current block hash: %v", err)
 	}
 
 	// Check if the tx is in the mempool or if it has been confirmed in the
 	// current block.
 	txInfo, err := b.blockchain.GetTxOut(txId, vout)
 	if err != nil {
-		return "", 0, fmt.Errorf(
+		return "", 0, 0, fmt.Errorf(
 			"error calling gettxout(%s, %d): %v",
 			txId, vout, err)
 	}
@@ -173,11 +176,11 @@ func (b *CommonBlockchainObserver) IsTxInMempoolOrRange(txId string, startHeight
 			log.Infof(
 				"block watcher might be out of sync: current_block=%s, best_block=%s",
 				bHash, txInfo.BestBlockHash)
-			return "", 0, ErrOutOfSync
+			return "", 0, 0, ErrOutOfSync
 		}
 		if txInfo.Confirmations == 0 {
 			// Tx is in mempool
-			return "", 0, ErrUnconfirmed
+			return "", 0, 0, ErrUnconfirmed
 		} else if txInfo.Confirmations == 1 {
 			// Tx was confirmed in the current block, same block hash.
 			txBlockHash = bHash
@@ -189,7 +192,7 @@ func (b *CommonBlockchainObserver) IsTxInMempoolOrRange(txId string, startHeight
 				current,
 			)
 			if err != nil {
-				return "", 0, fmt.Errorf(
+				return "", 0, 0, fmt.Errorf(
 					"could not get current block hash: %v", err,
 				)
 			}
@@ -199,9 +202,9 @@ func (b *CommonBlockchainObserver) IsTxInMempoolOrRange(txId string, startHeight
 			log.Infof(
 				"unforeseen block hash mismatch: tx_id=%s, block_hash=%s: %v",
 				txId, bHash, err)
-			return "", 0, ErrBlockHashMismatch
+			return "", 0, 0, ErrBlockHashMismatch
 		}
-		return rtx, current, nil
+		return rtx, current, tip, nil
 	}
 
 	// The transaction could not be found in the mempool or the transaction
@@ -209,5 +212,6 @@ func (b *CommonBlockchainObserver) IsTxInMempoolOrRange(txId string, startHeight
 	// the past we should still find it in the range of starting the swap until
 	// now. If we can not find the tx in this range this means that the tx is
 	// not yet in our view of the mempool.
-	return b.IsTxInRange(txId, startHeight, current)
+	rtx, firstSeen, err := b.IsTxInRange(txId, startHeight, current)
+	return rtx, firstSeen, tip, err
 }
